@@ -237,7 +237,8 @@ pub fn c02(seed: u64, budget: usize) -> Report {
         }
         // image shape: one row, one column (planes one sample wide, many rows), 97 wide (stride != width), 2 wide
         let n0 = px.len();
-        let (w, h) = match (ci + seed as usize) % 4 { 1 => (1, n0.min(65536)), 2 => (97, n0 / 97), 3 => (2, n0 / 2), _ => (n0, 1) };
+        // ... and 64 / 320 wide (the width fills the plane stride: flat-buffer fast paths)
+        let (w, h) = match (ci + seed as usize) % 6 { 1 => (1, n0.min(65536)), 2 if n0 >= 97 => (97, n0 / 97), 3 if n0 >= 2 => (2, n0 / 2), 4 if n0 >= 64 => (64, n0 / 64), 5 if n0 >= 320 => (320, n0 / 320), _ => (n0, 1) };
         let n = w * h; px.truncate(n);
         let rgb = Rgb::new(px.clone(), w, h, TransferCharacteristic::BT1886, ColorPrimaries::BT709).unwrap();
         let (codes, okcfg) = if ts == 1 { let y = Yuv::<u8>::try_from((&rgb, cfg)).unwrap(); (codes_of_rows(&y, n), y.config() == cfg && y.width() == w && y.height() == h) }
